@@ -1,5 +1,5 @@
 (* C12/Properties.v -- pinned statements of property C12 (JSON-LD serialisation round trip). *)
-From Sophia.C12 Require Import Model Proofs.
+From Sophia.C12 Require Import Model Proofs Calls CallsProofs Back BackProofs RoundTripFacts RoundTripValues RoundTripDoc.
 
 (* ---------- (1) the filter ---------- *)
 Check (is_jsonld_spec : forall info q, is_jsonld info q = true <-> representable info q).
@@ -166,3 +166,140 @@ Print Assumptions i18n_shortcut_lossless.
 Print Assumptions prefix_f_refuted.
 Print Assumptions i18n_shortcut_used.
 Print Assumptions anchored_len.
+
+(* ---------- (5) the serializer object: error channel, several calls on one serializer ---------- *)
+Check (serialise_result_some : forall info o bad d,
+  (forall q, In q d -> is_jsonld info q = true -> bad (qo q) = false) ->
+  serialise_result info o bad d = Some (serialise info o d)).
+Check (serialise_result_none : forall info o bad d,
+  serialise_result info o bad d = None <->
+  exists q, In q d /\ is_jsonld info q = true /\ is_lit info (qo q) = true /\ bad (qo q) = true).
+Check (serialise_result_filter : forall info o bad d,
+  serialise_result info o bad d = serialise_result info o bad (filter (is_jsonld info) d)).
+Check (calls_independent : forall info o bad ds k d,
+  nth_error ds k = Some d -> nth_error (calls info o bad ds) k = Some (serialise_result info o bad d)).
+Check (calls_app : forall info o bad a b, calls info o bad (a ++ b) = calls info o bad a ++ calls info o bad b).
+Check (appended_app : forall r1 r2, appended (r1 ++ r2) = appended r1 ++ appended r2).
+Check (appended_all_ok : forall info o bad ds,
+  (forall d q, In d ds -> In q d -> is_jsonld info q = true -> bad (qo q) = false) ->
+  appended (calls info o bad ds) = map (serialise info o) ds).
+Check (replaced_snoc : forall rs r,
+  replaced (rs ++ [r]) = match r with Some doc => Some doc | None => replaced rs end).
+(* three calls on one serializer, the second with an ill-formed rdf:JSON literal (14): a writer holds documents 1 and 3,
+   a jsonifier document 3 *)
+Example calls_example :
+  let ds := [[mkQ 18 12 11 None]; [mkQ 18 12 14 None; mkQ 20 12 14 None]; []] in
+  appended (calls (info_of T) O11 (bad_of [14]) ds) = [[mkTop (mkJ 18 [] [(12, [JRef 11])]) None]; []]
+  /\ replaced (calls (info_of T) O11 (bad_of [14]) ds) = Some []
+  /\ calls_ok T O11 [14] ds [[[mkTop (mkJ 18 [] [(12, [JRef 11])]) None]; []]] = true
+  /\ jsonifier_ok T O11 [14] ds (Some []) = true.
+Proof. vm_compute. auto. Qed.
+Print Assumptions serialise_result_some.
+Print Assumptions serialise_result_none.
+Print Assumptions serialise_result_filter.
+Print Assumptions calls_independent.
+Print Assumptions calls_app.
+Print Assumptions appended_app.
+Print Assumptions appended_all_ok.
+Print Assumptions replaced_snoc.
+Print Assumptions calls_example.
+
+(* ---------- (6) THE GENERAL ROUND TRIP (lists of any nesting, shared or not, in any number of graphs; compound
+   literals; cyclic and malformed chains; labels reused across graphs) ---------- *)
+(* (6a) for EVERY document: the reference reader and the witness walk in lockstep *)
+Check (reader_lock : forall base doc, (forall x, In x (doc_vis doc) -> x < base) ->
+  let r := witness base doc in
+  map (rename_q r) (to_rdf base doc) = doc_back doc
+  /\ map snd r = doc_ghosts doc
+  /\ NoDup (map fst r)
+  /\ (forall p, In p r -> base <= fst p)
+  /\ (forall x, In x (ids_of (to_rdf base doc)) -> In x (doc_vis doc) \/ In x reader_consts \/ base <= x)).
+(* (6b) the emitted document: what is read back is exactly the expressible part of the input; every suppressed node
+   is hidden exactly once; nothing that is shown is suppressed anywhere *)
+Check (back_sound : forall info o d, wf_info info -> forall y,
+  In y (doc_back (serialise info o d)) -> In y (filter (is_jsonld info) d)).
+Check (back_complete : forall info o d, wf_info info -> forall q,
+  In q (filter (is_jsonld info) d) -> In q (doc_back (serialise info o d))).
+Check (ghosts_nodup : forall info o d, wf_info info -> NoDup (doc_ghosts (serialise info o d))).
+Check (ghost_ghostly : forall info o d, wf_info info -> forall b,
+  In b (doc_ghosts (serialise info o d)) -> ghostly info o d b).
+Check (vis_ok : forall info o d, wf_info info -> forall id,
+  In id (doc_vis (serialise info o d)) -> In id (ids_of d) /\ ~ ghostly info o d id).
+(* the fuel of the model's recursions is sufficient: the marks are pairwise different node keys, and `cells` does not
+   depend on its fuel beyond the height bound *)
+Check (L_le_nodes : forall info o d,
+  (length (list_nodes info o (process info o d)) <= length (nodes (process info o d)))%nat).
+Check (cells_stable : forall info o d k pk,
+  aget nkey_eqb (list_nodes info o (process info o d)) k = Some pk ->
+  forall F F', (Bnd info o d < F + hgt info o d k)%nat -> (Bnd info o d < F' + hgt info o d k)%nat ->
+  cells (process info o d) F k = cells (process info o d) F' k).
+Check (value_props : forall info o d, wf_info info -> forall x a p f,
+  valq info d x a p -> fuel_ok info o d f x ->
+  vprops info o d (fst a) x
+    (convert info (process info o d) (list_nodes info o (process info o d)) (compounds info o (process info o d)) f x)).
+(* the value vectors of the engine never hold the same object twice *)
+Check (pat_nd_process : forall info o d k p, NoDup (pat (nodes (process info o d)) k p)).
+(* (6c) the theorem *)
+Check (roundtrip_general : forall info o d base, wf_info info -> (forall x, In x (ids_of d) -> x < base) ->
+  let docu := serialise info o d in
+  let r := witness base docu in
+  (forall q, In q (map (rename_q r) (to_rdf base docu)) <-> In q (filter (is_jsonld info) d))
+  /\ NoDup (map snd r) /\ NoDup (map fst r)
+  /\ (forall p, In p r -> base <= fst p /\ kind info (snd p) = KBlank
+                           /\ In (snd p) (ids_of d) /\ ~ In (snd p) (ids_of (to_rdf base docu)))).
+Check (roundtrip_isomorphic : forall info o d base, wf_info info -> (forall x, In x (ids_of d) -> x < base) ->
+  let back := to_rdf base (serialise info o d) in
+  exists f : N -> N,
+    (forall x y, In x (ids_of back) -> In y (ids_of back) -> f x = f y -> x = y)
+    /\ (forall x, x < base -> f x = x)
+    /\ (forall x, f x <> x -> base <= x /\ kind info (f x) = KBlank /\ In (f x) (ids_of d))
+    /\ (forall q, In q (map (fun q => mkQ (f (qs q)) (qp q) (f (qo q)) (option_map f (qg q))) back)
+                   <-> In q (filter (is_jsonld info) d))).
+(* the statement that Proofs.v left open *)
+Check (roundtrip_full : roundtrip_full_statement).
+Check (roundtrip_full : forall info o d base, wf_info info -> (forall x, In x (ids_of d) -> x < base) ->
+  roundtrip_doc_ok info d base (serialise info o d) = true).
+
+(* non-vacuity: a dataset with a nested list in a named graph, a cell label reused as a subject in another graph (not
+   compacted there), a compound literal as a list item, and a list that is its own item (not compacted).
+   21 _:d  22 _:e  23 _:f (compound literal)  24 "x"  25 _:h  26 _:i *)
+Definition T2 : table := T ++ [(21, B); (22, B); (23, B); (24, Lit true false false); (25, B); (26, B)].
+Definition d_big :=
+  [ mkQ 18 12 13 (Some 15); mkQ 13 1 21 (Some 15); mkQ 13 2 16 (Some 15);      (* :s :p ( (..) .. ) in :g2 *)
+    mkQ 21 1 14 (Some 15); mkQ 21 2 3 (Some 15);                               (* the nested list ("lit") *)
+    mkQ 16 1 23 (Some 15); mkQ 16 2 3 (Some 15);                               (* second cell: a compound literal *)
+    mkQ 23 6 24 (Some 15); mkQ 23 7 19 (Some 15);                              (* _:f rdf:value "x"; rdf:direction "ltr" *)
+    mkQ 22 1 14 None; mkQ 22 2 3 None; mkQ 11 12 22 None; mkQ 22 17 11 (Some 15); (* _:e: a list cell, also a subject in :g2 *)
+    mkQ 25 1 26 None; mkQ 25 2 3 None; mkQ 26 1 14 None; mkQ 26 2 25 None ].   (* a list that is its own item *)
+Example wf_info_T2 : wf_info (info_of T2).
+Proof. intros c Hc. simpl in Hc. repeat (destruct Hc as [<-|Hc]; [reflexivity|]). destruct Hc. Qed.
+Example d_big_compacted :
+  serialise (info_of T2) O11c d_big
+  = [ mkTop (mkJ 15 [] [])
+        (Some [ mkJ 18 [] [(12, [JList [13; 16] [JList [21] [JLit 14]; JComp 23 24 19 None]])];
+                mkJ 22 [] [(17, [JRef 11])] ]);
+      mkTop (mkJ 22 [] [(1, [JLit 14]); (2, [JList [] []])]) None;
+      mkTop (mkJ 11 [] [(12, [JRef 22])]) None;
+      mkTop (mkJ 25 [] [(1, [JRef 26]); (2, [JList [] []])]) None;
+      mkTop (mkJ 26 [] [(1, [JLit 14]); (2, [JRef 25])]) None ]
+  /\ witness 100 (serialise (info_of T2) O11c d_big) = [(103, 13); (100, 21); (102, 16); (101, 23)]
+  /\ (forall x, In x (ids_of d_big) -> x < 100).
+Proof.
+  split; [vm_compute; reflexivity|]. split; [vm_compute; reflexivity|].
+  intros x Hx. vm_compute in Hx. repeat (destruct Hx as [<-|Hx]; [reflexivity|]). destruct Hx.
+Qed.
+Print Assumptions reader_lock.
+Print Assumptions back_sound.
+Print Assumptions back_complete.
+Print Assumptions ghosts_nodup.
+Print Assumptions ghost_ghostly.
+Print Assumptions vis_ok.
+Print Assumptions L_le_nodes.
+Print Assumptions cells_stable.
+Print Assumptions value_props.
+Print Assumptions pat_nd_process.
+Print Assumptions roundtrip_general.
+Print Assumptions roundtrip_isomorphic.
+Print Assumptions roundtrip_full.
+Print Assumptions wf_info_T2.
+Print Assumptions d_big_compacted.
